@@ -237,6 +237,41 @@ def attribute_tagged_cases():
     return out
 
 
+# ---- tuple layout around fields that take no position ---------------------------------------------------------------------------
+def tuple_layout_cases():
+    """Dataclasses read from sequences whose declaration order puts a field WITHOUT a position (init=False) before positional ones, and
+    keyword-only fields between them; rows where the value at a later position happens to be valid for the skipped field's type."""
+    class TA(env.PaneBase, in_format=('tuple', 'struct')):
+        channel: int
+        scaled: int = env.pfield(init=False, default=0)
+        unit: str = 'u'
+
+    class TB(env.PaneBase, in_format=('tuple',)):
+        name: str
+        derived: str = env.pfield(init=False, default='d')
+        count: int = 0
+        ratio: float = 1.0
+
+    class TC(env.PaneBase, in_format=('tuple', 'struct')):
+        first: int
+        skip_a: float = env.pfield(init=False, default=0.0)
+        skip_b: t.List[int] = env.pfield(init=False, default_factory=list)
+        second: t.List[int] = env.pfield(default_factory=list)
+        kw: str = env.pfield(default='k', kw_only=True)
+
+    rows = [
+        ('init=False int before a str', TA, [[3, 'v'], [3, 5], [3], ['x', 'v'], [3, 'v', 'more'], [], [3, None], [True, 'v'], [3, 5.0]]),
+        ('init=False str before int, float', TB, [['n', 1, 2.5], ['n', 'x'], ['n', 1, 'y'], ['n'], ['n', 2.5], ['n', 'x', 2.5], [1, 1, 1.0], ['n', 1, 2.5, 3]]),
+        ('two init=False fields, then a list, then keyword-only', TC, [[1, [2]], [1, 2.5], [1, [2], 'k'], [1], [1, ['a']], [1.5, [2]], [1, [2.5]], [1, []]]),
+    ]
+    out = []
+    for label, T, vals in rows:
+        out.append((label, T, vals))
+        out.append(('List of: ' + label, t.List[T], [[v] for v in vals] + [[vals[0], vals[1]]]))
+        out.append(('Optional: ' + label, t.Optional[T], vals[:4] + [None]))
+    return out
+
+
 # ---- refused values that cannot be printed ------------------------------------------------------------------------------------
 def unprintable_cases():
     """[(label, T, value)] - interchange data holding an int that str() / repr() refuse to print (more digits than
